@@ -540,6 +540,12 @@ func newRules(rules []rule) (Rules, error) {
 				if err != nil {
 					return nil, err
 				}
+				if len(rule) == 1 && rule[0].comment != "" {
+					// A rule made of its keyword only: the trailing comment sits on the keyword
+					if b, ok := r.(interface{ setComment(string) }); ok {
+						b.setComment(rule[0].comment)
+					}
+				}
 				if owner && r.Kind() == LINK {
 					r.(*Link).Owner = owner
 				}
